@@ -256,3 +256,9 @@ pub fn transform_varblocks(
         );
     }
 }
+
+/// Verification hook H3: exposes the crate-private generic single-varblock inverse transform.
+#[cfg(jxl_oxide_verif)]
+pub fn verif_transform(coeff: &mut MutableSubgrid<'_>, dct_select: TransformType) {
+    transform(coeff, dct_select)
+}
